@@ -10,17 +10,29 @@ import (
 
 // C13 — redirect routes answer from the request alone.
 //
-// Facts the model and the theorems silently depend on:
-//   - the string literals of BuildRedirectURL ($path, /$path, $host, /);
-//   - the 300/399 bounds of the redirect option and that a value Atoi rejects leaves the code 0;
-//   - ServeHTTP: the redirect branch (condition, http.Redirect arguments, return) comes after Lookup and before
-//     the target URL is built and before any handler that contacts an upstream is created or called;
-//   - no store through the shared *Target on the request path: the field stores of Lookup, the receiver of
-//     BuildRedirectURL in Lookup (a per-request copy), the stores of ServeHTTP rooted at the target, and the
-//     stores of BuildRedirectURL (only its receiver's RedirectURL);
-//   - the operands of the self-redirect comparison and the shape of requestScheme.
+// The facts pin MEANING, not spelling (so that renaming locals, extracting/inlining helpers, named constants,
+// if-chains vs switches leave them unchanged):
+//   - the AST is normalised (constants inlined, literal concatenations folded, switch -> if chain);
+//   - variables are named by ROLE: recv, p0, p1 … (parameters), res0 … (named results), and a local by what it
+//     was last assigned from: copy (`v := *x`), call:<callee>, an alias of another role expression, local;
+//   - calls into functions of the same package that are invoked on, or handed, the value of interest are followed
+//     with the callee's receiver/parameters bound to the roles of the arguments, so a store or a comparison that
+//     was moved into a helper is reported exactly as if it stood inline.
+//
+// Facts:
+//   - BuildRedirectURL: the `$` variables among its string literals; it first assigns a freshly allocated url.URL
+//     to recv.RedirectURL and every later store goes through recv.RedirectURL;
+//   - addTarget: bounds of the redirect code, Atoi of the "redirect" option, reset to 0 on an Atoi error and
+//     outside the bounds;
+//   - ServeHTTP: the redirect branch (conjuncts of its condition, arguments of http.Redirect, ends in return)
+//     comes after the Lookup call, nothing that contacts an upstream is called up to it, the handler call
+//     comes after it, no store through the target;
+//   - Lookup: BuildRedirectURL is invoked on a per-request copy, every field store on the request path goes to
+//     that copy or to the request, the conjuncts of the self-redirect condition, `continue` after dropping the
+//     result, and the shape of the helper that yields the request's scheme.
 func init() {
 	register("C13", func(x *X) error {
+		x.UseNormalizedAST()
 		c13Build(x)
 		c13Code(x)
 		c13Serve(x)
@@ -29,9 +41,9 @@ func init() {
 	})
 }
 
-func uniq(xs []string) []string {
+func c13uniq(xs []string) []string {
 	seen := map[string]bool{}
-	var out []string
+	out := []string{}
 	for _, s := range xs {
 		if !seen[s] {
 			seen[s] = true
@@ -41,47 +53,13 @@ func uniq(xs []string) []string {
 	return out
 }
 
-// stores lists the left-hand sides of every assignment / inc-dec in node that are not plain identifiers.
-func (x *X) stores(node ast.Node) []ast.Expr {
-	var out []ast.Expr
-	ast.Inspect(node, func(n ast.Node) bool {
-		switch s := n.(type) {
-		case *ast.AssignStmt:
-			for _, l := range s.Lhs {
-				if _, ok := l.(*ast.Ident); !ok {
-					out = append(out, l)
-				}
-			}
-		case *ast.IncDecStmt:
-			if _, ok := s.X.(*ast.Ident); !ok {
-				out = append(out, s.X)
-			}
-		}
-		return true
-	})
-	return out
+func c13sortedUniq(xs []string) []string {
+	o := c13uniq(xs)
+	sort.Strings(o)
+	return o
 }
 
-func rootIdent(e ast.Expr) string {
-	for {
-		switch v := e.(type) {
-		case *ast.SelectorExpr:
-			e = v.X
-		case *ast.IndexExpr:
-			e = v.X
-		case *ast.StarExpr:
-			e = v.X
-		case *ast.ParenExpr:
-			e = v.X
-		case *ast.Ident:
-			return v.Name
-		default:
-			return ""
-		}
-	}
-}
-
-func stringLits(node ast.Node) []string {
+func c13stringLits(node ast.Node) []string {
 	var out []string
 	ast.Inspect(node, func(n ast.Node) bool {
 		if b, ok := n.(*ast.BasicLit); ok && b.Kind == token.STRING {
@@ -94,39 +72,439 @@ func stringLits(node ast.Node) []string {
 	return out
 }
 
+// ---- roles -----------------------------------------------------------------------------------------------
+
+type roleEnv map[string]string
+
+func (x *X) paramEnv(fd *ast.FuncDecl) roleEnv {
+	env := roleEnv{}
+	if fd.Recv != nil && len(fd.Recv.List) == 1 && len(fd.Recv.List[0].Names) == 1 {
+		env[fd.Recv.List[0].Names[0].Name] = "recv"
+	}
+	i := 0
+	if fd.Type.Params != nil {
+		for _, p := range fd.Type.Params.List {
+			for _, n := range p.Names {
+				env[n.Name] = "p" + strconv.Itoa(i)
+				i++
+			}
+			if len(p.Names) == 0 {
+				i++
+			}
+		}
+	}
+	if fd.Type.Results != nil {
+		j := 0
+		for _, p := range fd.Type.Results.List {
+			for _, n := range p.Names {
+				env[n.Name] = "res" + strconv.Itoa(j)
+				j++
+			}
+		}
+	}
+	return env
+}
+
+var c13universe = map[string]bool{"nil": true, "true": true, "false": true, "len": true, "string": true, "append": true}
+
+// canon renders an expression with variables replaced by their roles.
+func (x *X) canon(e ast.Expr, env roleEnv) string {
+	switch v := e.(type) {
+	case nil:
+		return ""
+	case *ast.Ident:
+		if r, ok := env[v.Name]; ok {
+			return r
+		}
+		if c13universe[v.Name] {
+			return v.Name
+		}
+		if v.Obj == nil { // package name or package-level identifier
+			return v.Name
+		}
+		return "local"
+	case *ast.BasicLit:
+		return v.Value
+	case *ast.ParenExpr:
+		return x.canon(v.X, env)
+	case *ast.SelectorExpr:
+		return x.canon(v.X, env) + "." + v.Sel.Name
+	case *ast.StarExpr:
+		return "*" + x.canon(v.X, env)
+	case *ast.UnaryExpr:
+		if v.Op == token.AND {
+			return x.canon(v.X, env) // an address is an alias of the thing
+		}
+		return v.Op.String() + x.canon(v.X, env)
+	case *ast.IndexExpr:
+		return x.canon(v.X, env) + "[" + x.canon(v.Index, env) + "]"
+	case *ast.BinaryExpr:
+		return x.canon(v.X, env) + " " + v.Op.String() + " " + x.canon(v.Y, env)
+	case *ast.CallExpr:
+		args := make([]string, len(v.Args))
+		for i, a := range v.Args {
+			args[i] = x.canon(a, env)
+		}
+		return x.canon(v.Fun, env) + "(" + strings.Join(args, ", ") + ")"
+	case *ast.CompositeLit:
+		return x.src(v.Type) + "{…}"
+	}
+	return "expr"
+}
+
+func c13rootOf(c string) string {
+	c = strings.TrimLeft(c, "*")
+	if i := strings.IndexAny(c, ".["); i >= 0 {
+		return c[:i]
+	}
+	return c
+}
+
+// assignRole updates env for `name = rhs` / `name := rhs`.
+func (x *X) assignRole(env roleEnv, name string, rhs ast.Expr) {
+	switch v := rhs.(type) {
+	case *ast.StarExpr:
+		_ = v
+		env[name] = "copy" // a value copy of what a pointer points to
+	case *ast.CallExpr:
+		callee := ""
+		switch f := v.Fun.(type) {
+		case *ast.Ident:
+			callee = f.Name
+		case *ast.SelectorExpr:
+			callee = f.Sel.Name
+		}
+		env[name] = "call:" + callee
+	case *ast.Ident, *ast.SelectorExpr, *ast.IndexExpr, *ast.UnaryExpr, *ast.ParenExpr:
+		c := x.canon(rhs, env)
+		if c == "nil" {
+			return // keeps its role; a nil assignment is an event of its own
+		}
+		env[name] = c
+	default:
+		env[name] = "local"
+	}
+}
+
+type storeEv struct {
+	lhs   string // canonical left-hand side
+	fresh bool   // rhs is &T{…} (a fresh allocation)
+}
+
+type skipIf struct {
+	conjuncts []string
+	helpers   []*ast.FuncDecl // unexpanded same-package callees that appear in the condition
+	continues bool
+	nilsRes   bool // the body assigns nil to the variable the function returns before continuing
+}
+
+type roleWalk struct {
+	x       *X
+	dir     string
+	follow  func(recvCanon string, argCanon []string) bool // follow this same-package call?
+	stores  []storeEv
+	calls   []string // callee names in order (selector name or identifier)
+	recvOf  map[string][]string
+	skipIfs []skipIf
+	retName string // name of the identifier the top function returns
+}
+
+func (w *roleWalk) sameCallee(c *ast.CallExpr) (*ast.FuncDecl, string) {
+	name := ""
+	switch f := c.Fun.(type) {
+	case *ast.Ident:
+		name = f.Name
+	case *ast.SelectorExpr:
+		name = f.Sel.Name
+		if id, ok := f.X.(*ast.Ident); ok && id.Obj == nil {
+			return nil, name // pkg.Func
+		}
+	}
+	if name == "" {
+		return nil, ""
+	}
+	return w.x.anyFuncDecl(w.dir, name), name
+}
+
+func (w *roleWalk) bind(callee *ast.FuncDecl, c *ast.CallExpr, env roleEnv) roleEnv {
+	ne := w.x.paramEnv(callee)
+	out := roleEnv{}
+	for k, role := range ne {
+		switch {
+		case role == "recv":
+			if sel, ok := c.Fun.(*ast.SelectorExpr); ok {
+				out[k] = w.x.canon(sel.X, env)
+			} else {
+				out[k] = "local"
+			}
+		case strings.HasPrefix(role, "p"):
+			i, _ := strconv.Atoi(role[1:])
+			if i < len(c.Args) {
+				out[k] = w.x.canon(c.Args[i], env)
+			} else {
+				out[k] = "local"
+			}
+		default:
+			out[k] = "local"
+		}
+	}
+	return out
+}
+
+// condConjuncts splits a condition at && and expands calls to same-package one-line boolean helpers.
+func (w *roleWalk) condConjuncts(e ast.Expr, env roleEnv, depth int, helpers *[]*ast.FuncDecl) []string {
+	switch v := e.(type) {
+	case *ast.ParenExpr:
+		return w.condConjuncts(v.X, env, depth, helpers)
+	case *ast.BinaryExpr:
+		if v.Op == token.LAND {
+			return append(w.condConjuncts(v.X, env, depth, helpers), w.condConjuncts(v.Y, env, depth, helpers)...)
+		}
+		return []string{w.condOperand(v.X, env, helpers) + " " + v.Op.String() + " " + w.condOperand(v.Y, env, helpers)}
+	case *ast.CallExpr:
+		if callee, _ := w.sameCallee(v); callee != nil && depth < 4 && len(callee.Body.List) == 1 {
+			if rs, ok := callee.Body.List[0].(*ast.ReturnStmt); ok && len(rs.Results) == 1 {
+				return w.condConjuncts(rs.Results[0], w.bind(callee, v, env), depth+1, helpers)
+			}
+		}
+	}
+	return []string{w.condOperand(e, env, helpers)}
+}
+
+// condOperand: a call to a same-package function is rendered by role ("helper(args)"), not by name.
+func (w *roleWalk) condOperand(e ast.Expr, env roleEnv, helpers *[]*ast.FuncDecl) string {
+	if c, ok := e.(*ast.CallExpr); ok {
+		if callee, _ := w.sameCallee(c); callee != nil {
+			*helpers = append(*helpers, callee)
+			args := make([]string, len(c.Args))
+			for i, a := range c.Args {
+				args[i] = w.x.canon(a, env)
+			}
+			return "helper(" + strings.Join(args, ", ") + ")"
+		}
+	}
+	return w.x.canon(e, env)
+}
+
+func (w *roleWalk) exprCalls(n ast.Node, env roleEnv, depth int) {
+	ast.Inspect(n, func(m ast.Node) bool {
+		if _, ok := m.(*ast.FuncLit); ok {
+			return false
+		}
+		c, ok := m.(*ast.CallExpr)
+		if !ok {
+			return true
+		}
+		callee, name := w.sameCallee(c)
+		if name != "" {
+			w.calls = append(w.calls, name)
+		}
+		recvCanon := ""
+		if sel, ok := c.Fun.(*ast.SelectorExpr); ok {
+			recvCanon = w.x.canon(sel.X, env)
+			w.recvOf[name] = append(w.recvOf[name], recvCanon)
+		}
+		if callee != nil && depth < 4 {
+			args := make([]string, len(c.Args))
+			for i, a := range c.Args {
+				args[i] = w.x.canon(a, env)
+			}
+			if w.follow == nil || w.follow(recvCanon, args) {
+				w.block(callee.Body, w.bind(callee, c, env), depth+1)
+			}
+		}
+		return true
+	})
+}
+
+func (w *roleWalk) block(b *ast.BlockStmt, env roleEnv, depth int) {
+	if b == nil {
+		return
+	}
+	for _, s := range b.List {
+		w.stmt(s, env, depth)
+	}
+}
+
+func (w *roleWalk) stmt(s ast.Stmt, env roleEnv, depth int) {
+	switch v := s.(type) {
+	case *ast.AssignStmt:
+		for _, r := range v.Rhs {
+			w.exprCalls(r, env, depth)
+		}
+		for i, l := range v.Lhs {
+			if id, ok := l.(*ast.Ident); ok {
+				if len(v.Lhs) == len(v.Rhs) {
+					w.x.assignRole(env, id.Name, v.Rhs[i])
+				} else if len(v.Rhs) == 1 {
+					if c, ok := v.Rhs[0].(*ast.CallExpr); ok {
+						_, name := w.sameCallee(c)
+						env[id.Name] = "call:" + name + "#" + strconv.Itoa(i)
+					} else {
+						env[id.Name] = "local"
+					}
+				}
+				continue
+			}
+			ev := storeEv{lhs: w.x.canon(l, env)}
+			if len(v.Lhs) == len(v.Rhs) {
+				if u, ok := v.Rhs[i].(*ast.UnaryExpr); ok && u.Op == token.AND {
+					_, ev.fresh = u.X.(*ast.CompositeLit)
+				}
+			}
+			w.stores = append(w.stores, ev)
+		}
+	case *ast.IncDecStmt:
+		if _, ok := v.X.(*ast.Ident); !ok {
+			w.stores = append(w.stores, storeEv{lhs: w.x.canon(v.X, env)})
+		}
+	case *ast.ExprStmt:
+		w.exprCalls(v.X, env, depth)
+	case *ast.DeclStmt:
+		if gd, ok := v.Decl.(*ast.GenDecl); ok {
+			for _, sp := range gd.Specs {
+				if vs, ok := sp.(*ast.ValueSpec); ok {
+					for i, n := range vs.Names {
+						if i < len(vs.Values) {
+							w.exprCalls(vs.Values[i], env, depth)
+							w.x.assignRole(env, n.Name, vs.Values[i])
+						} else {
+							env[n.Name] = "local"
+						}
+					}
+				}
+			}
+		}
+	case *ast.IfStmt:
+		if v.Init != nil {
+			w.stmt(v.Init, env, depth)
+		}
+		w.exprCalls(v.Cond, env, depth)
+		if depth == 0 {
+			si := skipIf{}
+			for _, b := range v.Body.List {
+				if as, ok := b.(*ast.AssignStmt); ok && len(as.Lhs) == 1 && len(as.Rhs) == 1 && !si.continues {
+					if id, ok := as.Lhs[0].(*ast.Ident); ok && id.Name == w.retName && w.x.src(as.Rhs[0]) == "nil" {
+						si.nilsRes = true
+					}
+				}
+				if br, ok := b.(*ast.BranchStmt); ok && br.Tok == token.CONTINUE {
+					si.continues = true
+				}
+			}
+			if si.continues {
+				si.conjuncts = w.condConjuncts(v.Cond, env, 0, &si.helpers)
+				sort.Strings(si.conjuncts)
+				w.skipIfs = append(w.skipIfs, si)
+			}
+		}
+		w.block(v.Body, env, depth)
+		if v.Else != nil {
+			w.stmt(v.Else, env, depth)
+		}
+	case *ast.BlockStmt:
+		w.block(v, env, depth)
+	case *ast.ForStmt:
+		if v.Init != nil {
+			w.stmt(v.Init, env, depth)
+		}
+		if v.Cond != nil {
+			w.exprCalls(v.Cond, env, depth)
+		}
+		w.block(v.Body, env, depth)
+	case *ast.RangeStmt:
+		w.exprCalls(v.X, env, depth)
+		for _, e := range []ast.Expr{v.Key, v.Value} {
+			if id, ok := e.(*ast.Ident); ok {
+				env[id.Name] = "local"
+			}
+		}
+		w.block(v.Body, env, depth)
+	case *ast.ReturnStmt:
+		for _, r := range v.Results {
+			w.exprCalls(r, env, depth)
+		}
+	case *ast.SwitchStmt: // a switch the normaliser left alone
+		if v.Init != nil {
+			w.stmt(v.Init, env, depth)
+		}
+		w.block(v.Body, env, depth)
+	case *ast.CaseClause:
+		for _, e := range v.List {
+			w.exprCalls(e, env, depth)
+		}
+		for _, b := range v.Body {
+			w.stmt(b, env, depth)
+		}
+	case *ast.DeferStmt:
+		w.exprCalls(v.Call, env, depth)
+	case *ast.GoStmt:
+		w.exprCalls(v.Call, env, depth)
+	}
+}
+
+func (x *X) newRoleWalk(dir string) *roleWalk {
+	return &roleWalk{x: x, dir: dir, recvOf: map[string][]string{}}
+}
+
+// ---- BuildRedirectURL --------------------------------------------------------------------------------------
+
 func c13Build(x *X) {
 	fd := x.funcDecl("route", "Target", "BuildRedirectURL")
 	if fd == nil {
 		return
 	}
-	lits := uniq(stringLits(fd.Body))
-	sort.Strings(lits)
-	x.defStrList("buildLits", lits)
-	recv := ""
-	if fd.Recv != nil && len(fd.Recv.List) == 1 && len(fd.Recv.List[0].Names) == 1 {
-		recv = fd.Recv.List[0].Names[0].Name
-	}
-	// every store of the function goes through recv.RedirectURL
-	var outside []string
-	for _, l := range x.stores(fd.Body) {
-		s := x.src(l)
-		if !(s == recv+".RedirectURL" || strings.HasPrefix(s, recv+".RedirectURL.")) {
-			outside = append(outside, s)
+	var vars []string
+	x.WalkInlined("route", fd, func(n ast.Node) bool {
+		if b, ok := n.(*ast.BasicLit); ok && b.Kind == token.STRING {
+			if s, err := strconv.Unquote(b.Value); err == nil && strings.Contains(s, "$") {
+				vars = append(vars, s)
+			}
 		}
+		return true
+	})
+	x.defStrList("buildVarLits", c13sortedUniq(vars))
+	w := x.newRoleWalk("route")
+	w.block(fd.Body, x.paramEnv(fd), 0)
+	var outside []string
+	freshFirst := false
+	seenURLStore := false
+	for _, s := range w.stores {
+		if s.lhs == "recv.RedirectURL" {
+			if !seenURLStore {
+				freshFirst = s.fresh
+			}
+			seenURLStore = true
+			continue
+		}
+		if strings.HasPrefix(s.lhs, "recv.RedirectURL.") {
+			if !seenURLStore { // a store through the URL before it was allocated would hit the previous (shared) one
+				outside = append(outside, "before allocation: "+s.lhs)
+			}
+			continue
+		}
+		outside = append(outside, s.lhs)
 	}
-	x.defStrList("buildStoresOutsideRedirectURL", uniq(outside))
-	// the first statement allocates the URL the later stores go to
-	first := ""
-	if len(fd.Body.List) > 0 {
-		if as, ok := fd.Body.List[0].(*ast.AssignStmt); ok && len(as.Lhs) == 1 && len(as.Rhs) == 1 {
-			if u, ok := as.Rhs[0].(*ast.UnaryExpr); ok && u.Op == token.AND {
-				if cl, ok := u.X.(*ast.CompositeLit); ok {
-					first = x.src(as.Lhs[0]) + " = &" + x.src(cl.Type) + "{…}"
-				}
+	x.defStrList("buildStoresOutsideFreshURL", c13uniq(outside))
+	x.defBool("buildAllocatesFreshURLFirst", freshFirst)
+}
+
+// ---- addTarget: the redirect option ------------------------------------------------------------------------
+
+func c13isSel(e ast.Expr, field string) bool {
+	s, ok := e.(*ast.SelectorExpr)
+	return ok && s.Sel.Name == field
+}
+
+func c13assignsZero(b *ast.BlockStmt, field string) bool {
+	for _, s := range b.List {
+		if as, ok := s.(*ast.AssignStmt); ok && len(as.Lhs) == 1 && len(as.Rhs) == 1 && c13isSel(as.Lhs[0], field) {
+			if l, ok := as.Rhs[0].(*ast.BasicLit); ok && l.Value == "0" {
+				return true
 			}
 		}
 	}
-	x.defStr("buildFirstStmt", first)
+	return false
 }
 
 func c13Code(x *X) {
@@ -135,42 +513,84 @@ func c13Code(x *X) {
 		return
 	}
 	var lo, hi int64 = -1, -1
-	reset := false
-	atoiArg := ""
+	resetErr, resetRange, atoiOfOpt := false, false, false
+	// local aliases of an index expression (`v := opts["redirect"]`)
+	alias := map[string]ast.Expr{}
 	ast.Inspect(fd.Body, func(n ast.Node) bool {
-		switch v := n.(type) {
-		case *ast.BinaryExpr:
-			if x.src(v.X) == "t.RedirectCode" {
-				if b, ok := v.Y.(*ast.BasicLit); ok && b.Kind == token.INT {
-					k, _ := strconv.ParseInt(b.Value, 0, 64)
-					if v.Op == token.LSS {
-						lo = k
+		if as, ok := n.(*ast.AssignStmt); ok && len(as.Lhs) == 1 && len(as.Rhs) == 1 {
+			if id, ok := as.Lhs[0].(*ast.Ident); ok {
+				if ix, ok := as.Rhs[0].(*ast.IndexExpr); ok {
+					alias[id.Name] = ix
+				}
+			}
+		}
+		return true
+	})
+	isRedirectOpt := func(e ast.Expr) bool {
+		if id, ok := e.(*ast.Ident); ok {
+			if a, ok := alias[id.Name]; ok {
+				e = a
+			}
+		}
+		ix, ok := e.(*ast.IndexExpr)
+		if !ok {
+			return false
+		}
+		s, ok := x.strLit(ix.Index)
+		return ok && s == "redirect"
+	}
+	var bounds func(e ast.Expr) (bool, bool)
+	bounds = func(e ast.Expr) (l, h bool) {
+		ast.Inspect(e, func(n ast.Node) bool {
+			if b, ok := n.(*ast.BinaryExpr); ok && c13isSel(b.X, "RedirectCode") {
+				if lit, ok := b.Y.(*ast.BasicLit); ok && lit.Kind == token.INT {
+					k, _ := strconv.ParseInt(lit.Value, 0, 64)
+					if b.Op == token.LSS {
+						lo, l = k, true
 					}
-					if v.Op == token.GTR {
-						hi = k
+					if b.Op == token.GTR {
+						hi, h = k, true
 					}
 				}
 			}
-		case *ast.BlockStmt:
-			// "t.RedirectCode, err = strconv.Atoi(…)" followed by "if err != nil { … t.RedirectCode = 0 … }"
-			for i, st := range v.List {
-				as, ok := st.(*ast.AssignStmt)
-				if !ok || len(as.Lhs) != 2 || len(as.Rhs) != 1 || x.src(as.Lhs[0]) != "t.RedirectCode" {
-					continue
-				}
-				call, ok := as.Rhs[0].(*ast.CallExpr)
-				if !ok || x.src(call.Fun) != "strconv.Atoi" || len(call.Args) != 1 {
-					continue
-				}
-				atoiArg = x.src(call.Args[0])
-				if i+1 < len(v.List) {
-					if is, ok := v.List[i+1].(*ast.IfStmt); ok && x.src(is.Cond) == "err != nil" {
-						for _, b := range is.Body.List {
-							if x.src(b) == "t.RedirectCode = 0" {
-								reset = true
-							}
-						}
+			return true
+		})
+		return
+	}
+	ast.Inspect(fd.Body, func(n ast.Node) bool {
+		blk, ok := n.(*ast.BlockStmt)
+		if !ok {
+			return true
+		}
+		for i, st := range blk.List {
+			as, ok := st.(*ast.AssignStmt)
+			if !ok || len(as.Lhs) != 2 || len(as.Rhs) != 1 || !c13isSel(as.Lhs[0], "RedirectCode") {
+				continue
+			}
+			call, ok := as.Rhs[0].(*ast.CallExpr)
+			if !ok || x.src(call.Fun) != "strconv.Atoi" || len(call.Args) != 1 {
+				continue
+			}
+			atoiOfOpt = isRedirectOpt(call.Args[0])
+			errName := ""
+			if id, ok := as.Lhs[1].(*ast.Ident); ok {
+				errName = id.Name
+			}
+			// the if / else-if chain that follows (a switch has been normalised into one)
+			if i+1 < len(blk.List) {
+				var cur ast.Stmt = blk.List[i+1]
+				for cur != nil {
+					is, ok := cur.(*ast.IfStmt)
+					if !ok {
+						break
 					}
+					if b, ok := is.Cond.(*ast.BinaryExpr); ok && b.Op == token.NEQ && x.src(b.X) == errName && x.src(b.Y) == "nil" {
+						resetErr = c13assignsZero(is.Body, "RedirectCode")
+					}
+					if l, h := bounds(is.Cond); l && h {
+						resetRange = c13assignsZero(is.Body, "RedirectCode")
+					}
+					cur = is.Else
 				}
 			}
 		}
@@ -182,175 +602,195 @@ func c13Code(x *X) {
 	}
 	x.defInt("codeLo", lo)
 	x.defInt("codeHi", hi)
-	x.defStr("codeAtoiArg", atoiArg)
-	x.defBool("codeResetOnAtoiError", reset)
+	x.defBool("codeAtoiOfRedirectOption", atoiOfOpt)
+	x.defBool("codeResetOnAtoiError", resetErr)
+	x.defBool("codeResetWhenOutOfRange", resetRange)
 }
+
+// ---- ServeHTTP ---------------------------------------------------------------------------------------------
+
+// calls that run an upstream handler or dial
+var c13upstreamCallees = map[string]bool{"ServeHTTP": true, "RoundTrip": true, "Dial": true, "DialContext": true, "DialTimeout": true, "Do": true}
 
 func c13Serve(x *X) {
 	fd := x.funcDecl("proxy", "HTTPProxy", "ServeHTTP")
 	if fd == nil {
 		return
 	}
-	idx := func(pred func(ast.Stmt) bool) int {
-		for i, s := range fd.Body.List {
-			if pred(s) {
-				return i
-			}
+	env := x.paramEnv(fd)
+	inlinedCalls := func(s ast.Node) (names []string, nodes []*ast.CallExpr) {
+		tmp := &ast.FuncDecl{Name: ast.NewIdent("·stmt"), Type: &ast.FuncType{}, Body: &ast.BlockStmt{}}
+		if st, ok := s.(ast.Stmt); ok {
+			tmp.Body.List = []ast.Stmt{st}
+		} else if b, ok := s.(*ast.BlockStmt); ok {
+			tmp.Body = b
 		}
-		return -1
-	}
-	hasCall := func(n ast.Node, fn string) bool { return len(x.calls(n, fn)) > 0 }
-	lookup := idx(func(s ast.Stmt) bool { return hasCall(s, "p.Lookup") })
-	redirect := idx(func(s ast.Stmt) bool {
-		is, ok := s.(*ast.IfStmt)
-		return ok && hasCall(is.Body, "http.Redirect")
-	})
-	if lookup < 0 || redirect < 0 {
-		x.fail("proxy.ServeHTTP: lookup or redirect branch not found")
-		return
-	}
-	is := fd.Body.List[redirect].(*ast.IfStmt)
-	x.defStr("serveRedirectCond", x.src(is.Cond))
-	x.defStr("serveRedirectCall", x.src(x.calls(is.Body, "http.Redirect")[0]))
-	_, returns := is.Body.List[len(is.Body.List)-1].(*ast.ReturnStmt)
-	x.defBool("serveRedirectReturns", returns && is.Else == nil)
-	x.defNat("serveLookupIdx", uint64(lookup))
-	x.defNat("serveRedirectIdx", uint64(redirect))
-	// first statement that builds the upstream URL or creates / calls an upstream handler
-	up := idx(func(s ast.Stmt) bool {
-		if as, ok := s.(*ast.AssignStmt); ok && len(as.Lhs) == 1 && x.src(as.Lhs[0]) == "targetURL" {
-			return true
-		}
-		return hasCall(s, "newHTTPProxy") || hasCall(s, "newWSHandler") || hasCall(s, "h.ServeHTTP") || hasCall(s, "gzip.NewGzipHandler")
-	})
-	if up < 0 {
-		x.fail("proxy.ServeHTTP: no statement building the upstream request found")
-		return
-	}
-	x.defNat("serveFirstUpstreamIdx", uint64(up))
-	// the calls made between the lookup and the redirect (none of them dials an upstream)
-	var between []string
-	for _, s := range fd.Body.List[lookup+1 : redirect] {
-		ast.Inspect(s, func(n ast.Node) bool {
+		x.WalkInlined("proxy", tmp, func(n ast.Node) bool {
 			if c, ok := n.(*ast.CallExpr); ok {
-				between = append(between, x.src(c.Fun))
+				switch f := c.Fun.(type) {
+				case *ast.Ident:
+					names = append(names, f.Name)
+				case *ast.SelectorExpr:
+					names = append(names, f.Sel.Name)
+				}
+				nodes = append(nodes, c)
 			}
 			return true
 		})
+		return
 	}
-	between = uniq(between)
-	sort.Strings(between)
-	x.defStrList("serveCallsBetweenLookupAndRedirect", between) // informative
-	// calls that create or run an upstream handler / dial, anywhere up to and including the redirect branch
-	upstreamCallees := map[string]bool{"newHTTPProxy": true, "newWSHandler": true, "h.ServeHTTP": true, "net.Dial": true,
-		"tls.Dial": true, "tr.RoundTrip": true, "p.Transport.RoundTrip": true, "gzip.NewGzipHandler": true, "httputil.NewSingleHostReverseProxy": true}
-	var early []string
-	for _, s := range fd.Body.List[:redirect+1] {
-		ast.Inspect(s, func(n ast.Node) bool {
-			if c, ok := n.(*ast.CallExpr); ok && upstreamCallees[x.src(c.Fun)] {
-				early = append(early, x.src(c.Fun))
+	has := func(names []string, n string) bool {
+		for _, m := range names {
+			if m == n {
+				return true
 			}
-			return true
-		})
+		}
+		return false
 	}
-	x.defStrList("serveUpstreamCallsUpToRedirect", uniq(early))
-	// stores rooted at the target
-	var tw []string
-	for _, l := range x.stores(fd.Body) {
-		if rootIdent(l) == "t" {
-			tw = append(tw, x.src(l))
+	lookupIdx, redirectIdx, handlerIdx := -1, -1, -1
+	var redirectIf *ast.IfStmt
+	var redirectCall *ast.CallExpr
+	// roles are assigned in statement order, so that the target is "call:Lookup" whatever it is called
+	for i, s := range fd.Body.List {
+		names, nodes := inlinedCalls(s)
+		if lookupIdx < 0 && has(names, "Lookup") {
+			lookupIdx = i
+		}
+		if is, ok := s.(*ast.IfStmt); ok && redirectIdx < 0 {
+			bn, bnodes := inlinedCalls(is.Body)
+			for k, n := range bn {
+				if n == "Redirect" && x.src(bnodes[k].Fun) == "http.Redirect" {
+					redirectIdx, redirectIf, redirectCall = i, is, bnodes[k]
+				}
+			}
+		}
+		if redirectIdx >= 0 && i > redirectIdx && handlerIdx < 0 && has(names, "ServeHTTP") {
+			handlerIdx = i
+		}
+		_ = nodes
+		if redirectIdx < 0 {
+			if as, ok := s.(*ast.AssignStmt); ok && len(as.Lhs) == len(as.Rhs) {
+				for k, l := range as.Lhs {
+					if id, ok := l.(*ast.Ident); ok {
+						x.assignRole(env, id.Name, as.Rhs[k])
+					}
+				}
+			}
 		}
 	}
-	x.defStrList("serveStoresThroughTarget", uniq(tw))
+	if lookupIdx < 0 || redirectIdx < 0 {
+		x.fail("proxy.ServeHTTP: lookup call or redirect branch not found")
+		return
+	}
+	w := x.newRoleWalk("proxy")
+	var hs []*ast.FuncDecl
+	conj := w.condConjuncts(redirectIf.Cond, env, 0, &hs)
+	sort.Strings(conj)
+	x.defStrList("serveRedirectCond", conj)
+	args := make([]string, len(redirectCall.Args))
+	for i, a := range redirectCall.Args {
+		args[i] = x.canon(a, env)
+	}
+	x.defStrList("serveRedirectArgs", args)
+	_, returns := redirectIf.Body.List[len(redirectIf.Body.List)-1].(*ast.ReturnStmt)
+	x.defBool("serveRedirectReturns", returns && redirectIf.Else == nil)
+	x.defBool("serveLookupBeforeRedirect", lookupIdx < redirectIdx)
+	x.defBool("serveHandlerCalledAfterRedirect", handlerIdx > redirectIdx)
+	var early []string
+	for _, s := range fd.Body.List[:redirectIdx+1] {
+		names, _ := inlinedCalls(s)
+		for _, n := range names {
+			if c13upstreamCallees[n] {
+				early = append(early, n)
+			}
+		}
+	}
+	x.defStrList("serveUpstreamCallsUpToRedirect", c13uniq(early))
+	// stores through the target (whatever the variable is called)
+	sw := x.newRoleWalk("proxy")
+	sw.follow = func(recv string, args []string) bool { return false }
+	sw.block(fd.Body, x.paramEnv(fd), 0)
+	var tw []string
+	for _, s := range sw.stores {
+		if c13rootOf(s.lhs) == "call:Lookup" {
+			tw = append(tw, s.lhs)
+		}
+	}
+	x.defStrList("serveStoresThroughTarget", c13uniq(tw))
 }
+
+// ---- Lookup ------------------------------------------------------------------------------------------------
 
 func c13Lookup(x *X) {
 	fd := x.funcDecl("route", "Table", "Lookup")
 	if fd == nil {
 		return
 	}
-	var st []string
-	for _, l := range x.stores(fd.Body) {
-		st = append(st, x.src(l))
+	w := x.newRoleWalk("route")
+	// the identifier Lookup returns
+	ast.Inspect(fd.Body, func(n ast.Node) bool {
+		if r, ok := n.(*ast.ReturnStmt); ok && len(r.Results) == 1 {
+			if id, ok := r.Results[0].(*ast.Ident); ok {
+				w.retName = id.Name
+			}
+		}
+		return true
+	})
+	// follow the calls that are made on, or are handed, the target or its per-request copy
+	interesting := func(c string) bool {
+		r := c13rootOf(c)
+		return r == "copy" || strings.HasPrefix(r, "call:lookup") || r == "res0"
 	}
-	st = uniq(st)
-	sort.Strings(st)
-	x.defStrList("lookupFieldStores", st)
-	// receivers of BuildRedirectURL: a variable declared in Lookup as `v := *p` is a per-request copy
-	copies := map[string]bool{}
-	ast.Inspect(fd.Body, func(n ast.Node) bool {
-		if as, ok := n.(*ast.AssignStmt); ok && as.Tok == token.DEFINE && len(as.Lhs) == 1 && len(as.Rhs) == 1 {
-			if id, ok := as.Lhs[0].(*ast.Ident); ok {
-				if _, ok := as.Rhs[0].(*ast.StarExpr); ok {
-					copies[id.Name] = true
-				}
+	w.follow = func(recv string, args []string) bool {
+		if interesting(recv) {
+			return true
+		}
+		for _, a := range args {
+			if interesting(a) {
+				return true
 			}
 		}
-		return true
-	})
-	var recvs []string
-	ast.Inspect(fd.Body, func(n ast.Node) bool {
-		if c, ok := n.(*ast.CallExpr); ok {
-			if sel, ok := c.Fun.(*ast.SelectorExpr); ok && sel.Sel.Name == "BuildRedirectURL" {
-				if id, ok := sel.X.(*ast.Ident); ok && copies[id.Name] {
-					recvs = append(recvs, "per-request copy")
-				} else {
-					recvs = append(recvs, "shared: "+x.src(sel.X))
-				}
-			}
+		return false
+	}
+	w.block(fd.Body, x.paramEnv(fd), 0)
+	// field stores that do not go to the per-request copy or to the request (p0)
+	var shared []string
+	for _, s := range w.stores {
+		if !strings.ContainsAny(s.lhs, ".") {
+			continue
 		}
-		return true
-	})
-	x.defStrList("lookupBuildReceivers", recvs)
-	// the comparison that decides the skip
-	var cmps []string
-	ast.Inspect(fd.Body, func(n ast.Node) bool {
-		if is, ok := n.(*ast.IfStmt); ok && strings.Contains(x.src(is.Cond), "RedirectURL.Scheme") {
-			var walk func(e ast.Expr)
-			walk = func(e ast.Expr) {
-				if b, ok := e.(*ast.BinaryExpr); ok && b.Op == token.LAND {
-					walk(b.X)
-					walk(b.Y)
-					return
-				}
-				cmps = append(cmps, x.src(e))
-			}
-			walk(is.Cond)
-			// the body skips to the next host
-			skips := false
-			for _, s := range is.Body.List {
-				if br, ok := s.(*ast.BranchStmt); ok && br.Tok == token.CONTINUE {
-					skips = true
-				}
-			}
-			x.defBool("lookupSelfRedirectContinues", skips)
-			// the skipped target is dropped before the loop goes on
-			clears := false
-			for _, s := range is.Body.List {
-				if x.src(s) == "target = nil" {
-					clears = true
-				}
-				if br, ok := s.(*ast.BranchStmt); ok && br.Tok == token.CONTINUE {
-					break
-				}
-			}
-			x.defBool("lookupSkipClearsTarget", clears)
-		}
-		return true
-	})
-	sort.Strings(cmps)
-	x.defStrList("lookupSelfRedirectComparisons", cmps)
-	// requestScheme: header first, connection otherwise
-	var rsLits []string
-	rsTLS := false
-	for _, f := range x.files("route") {
-		for _, d := range f.Decls {
-			if g, ok := d.(*ast.FuncDecl); ok && g.Name.Name == "requestScheme" && g.Recv == nil {
-				rsLits = uniq(stringLits(g.Body))
-				rsTLS = strings.Contains(x.src(g.Body), ".TLS != nil")
-			}
+		if r := c13rootOf(s.lhs); r != "copy" && r != "p0" || strings.HasPrefix(s.lhs, "*") {
+			shared = append(shared, s.lhs)
 		}
 	}
-	x.defStrList("requestSchemeLits", rsLits)
-	x.defBool("requestSchemeReadsTLS", rsTLS)
+	x.defStrList("lookupStoresNotPerRequest", c13uniq(shared))
+	x.defStrList("lookupBuildReceivers", c13uniq(w.recvOf["BuildRedirectURL"]))
+	// the self-redirect skip: the `if … { …; continue }` whose condition reads the redirect URL
+	found := false
+	for _, si := range w.skipIfs {
+		if !strings.Contains(strings.Join(si.conjuncts, " "), "RedirectURL") {
+			continue
+		}
+		found = true
+		x.defStrList("lookupSelfRedirectComparisons", si.conjuncts)
+		x.defBool("lookupSelfRedirectContinues", si.continues)
+		x.defBool("lookupSkipClearsTarget", si.nilsRes)
+		var lits []string
+		tls := false
+		for _, h := range si.helpers {
+			lits = append(lits, c13stringLits(h.Body)...)
+			ast.Inspect(h.Body, func(n ast.Node) bool {
+				if b, ok := n.(*ast.BinaryExpr); ok && b.Op == token.NEQ && c13isSel(b.X, "TLS") && x.src(b.Y) == "nil" {
+					tls = true
+				}
+				return true
+			})
+		}
+		x.defStrList("requestSchemeLits", c13sortedUniq(lits))
+		x.defBool("requestSchemeReadsTLS", tls)
+		break
+	}
+	if !found {
+		x.fail("route.Lookup: no `if … continue` whose condition reads the redirect URL")
+	}
 }
